@@ -394,10 +394,16 @@ def run(ctx: vlib.Ctx):
     for k in range(6 if ctx.quick else 18):
         a = algos[k % 3]
         jobs.append(dict(sut=str(suts[(k // 3) % len(suts)]), algorithm=a, metrics=["BRANCH"],
-                         iterations=(ctx.rng.choice([3, 5] if ctx.quick else [3, 5, 8]) if a != "MIO"
+                         iterations=(ctx.rng.choice(([3, 5] if a == "MOSA" else [6, 10]) if ctx.quick else [3, 5, 8, 15]) if a != "MIO"
                                      else ctx.rng.choice([20, 40] if ctx.quick else [30, 60, 120])),
                          seed=ctx.rng.randrange(10**6), pre=I.install_observers, max_records=100 if ctx.quick else 400,
-                         extra={"mio.initial_config.number_of_tests_per_target": ctx.rng.choice([2, 3, 10])} if a == "MIO" else None))
+                         extra=({"mio.initial_config.number_of_tests_per_target": ctx.rng.choice([2, 3, 10])} if a == "MIO" else
+                                # DynaMOSA runs its test-suite local search on the archive's solutions after every
+                                # generation: make it actually pick statements (default probability 0.02)
+                                {"local_search.local_search": True,
+                                 "local_search.local_search_probability": ctx.rng.choice([0.5, 1.0]),
+                                 "local_search.local_search_time": 3000,
+                                 "search_algorithm.population": ctx.rng.choice([6, 10, 50])} if a == "DYNAMOSA" else None)))
     runs = pipeline.run_many(jobs, I.extract, workers=6 if ctx.quick else 12, timeout=600)
     n_real = {"arch": 0, "gm": 0, "pop": 0, "reexec": 0}
     for job, r in zip(jobs, runs):
@@ -428,12 +434,12 @@ def run(ctx: vlib.Ctx):
                 return None
             return g in cov_tab[sid][0]
         for prev, nxt in zip(r["arch"], r["arch"][1:]):
-            pa = [(g, s["sid"], s["size"]) for g, s in prev["after"]["covered"]]
-            nb = [(g, s["sid"], s["size"]) for g, s in nxt["before"]["covered"]]
+            pa = [(g, s["sid"], s["size"], s.get("dig")) for g, s in prev["after"]["covered"]]
+            nb = [(g, s["sid"], s["size"], s.get("dig")) for g, s in nxt["before"]["covered"]]
             if pa != nb:
                 diff = [(x, y) for x, y in zip(pa, nb) if x != y][:3]
                 ctx.fail("archived-test-modified-in-place",
-                         f"real run: archived (goal, test, size) entries changed between two archive calls: {diff} "
+                         f"real run: archived (goal, test, size, code digest) entries changed between two archive calls: {diff} "
                          "(the archive stores the chromosome object; it was modified after being archived)", {"job": jd})
                 break
         for rec in r["arch"]:
